@@ -1,7 +1,26 @@
 """C52 — atomic file replacement: real FilePath.setContent / sob.Persistent.save over the crash-able
-in-memory filesystem (harness/lib/fsim.py) vs the Lean model, every crash point; + the property oracle."""
+in-memory filesystem (harness/lib/fsim.py) vs the Lean model, every crash point; + the property oracle.
+
+Case language (JSON):
+  {"fn": "setContent", "pre": {name: hex}, "base": name, "pmode": "str"|"bytes",
+   "ops": [{"rnd": hex16, "ext": str|None, "emode": "str"|"bytes", "content": hex | "gen:<n>:<s>"}, ...],
+   "cut": [k, p] | None, "mode": "crash" | "exc:OSError" | "exc:KeyboardInterrupt"}
+  {"fn": "save", "pre": {...}, "name": str,
+   "ops": [{"filename": str|None, "tag": str|None, "style": "pickle"|"source", "obj": <json> | {"$big": n} | {"$bad": 1}}, ...],
+   "cut": ..., "mode": ...}
+All ops run on ONE FilePath / Persistent object; every op but the last runs to completion, the last one is
+cut at primitive k (after p bytes if it is a write): mode "crash" kills the process there (no handler runs),
+mode "exc:<E>" makes that primitive raise E once (ENOSPC / KeyboardInterrupt) and lets the interpreter unwind
+through the real code (finally/except/with handlers DO run, on a live filesystem).
+The older flat form (one op, keys base/ext/rnd/content resp. filename/tag/style/obj at top level) is still read.
+Observable: the directory after every op, " >> "-joined, each with " !raised <Name>" when the op raised.
+"""
 import base64
+import errno
+import functools
+import json
 import pickle
+import re
 
 from twisted.persisted import sob
 from twisted.persisted.aot import jellyToSource
@@ -11,20 +30,36 @@ from lib import fsim
 
 HEADLINE = "TwistedProps.C52.setContent_target_old_or_new / save_target_old_or_new"
 RULE = ("scenarios = (function, files already in the directory incl. old target / stale temporary / bystanders, "
-        "new content of length 0..40, extension, tag/filename/style); for each scenario EVERY cut of the primitive trace "
-        "(before/after create, every partial write length, after the write, after rename) and the uncut run; "
-        "distinct = (function, where the cut falls, old target present?, content empty?, temp pre-existing?, raised?)")
+        "a history of 1..3 calls on ONE FilePath / Persistent object (earlier ones complete, per call: new content of "
+        "length 0..40 or 4095..140001 bytes around io.DEFAULT_BUFFER_SIZE and FilePath._chunkSize, extension str/bytes/None, "
+        "tag/filename/style/object incl. an object the dump function rejects; names from a fragment grammar with '-2', '.tap', "
+        "'.tas', non-ASCII; str- or bytes-mode path)); for each scenario EVERY cut of the primitive trace of the last call "
+        "(before/after create, every partial write length (sampled above 24 bytes), after the write, after rename) and the uncut "
+        "run, in one of two dying modes: process killed at the cut, or the primitive at the cut raises OSError(ENOSPC) / "
+        "KeyboardInterrupt and the interpreter unwinds through the real code; "
+        "distinct = (function, dying mode, where the cut falls, old target present?, content empty/small/big/rejected?, "
+        "temp pre-existing?, history length, path/extension types, raised?)")
 ASSUMES = ["POSIX: rename() is atomic and replaces the destination (the statement's own assumption); the win32 "
            "branches (unlink/remove before rename) are not exercised",
            "process crash, not power loss: bytes handed to the OS survive, user-space buffers are lost",
-           "what Persistent.save serialises (pickle protocol 2 / AOT source) is opaque bytes to the model"]
-TRUSTED = ["harness/lib/fsim.py (in-memory filesystem the real code is redirected to; crash = cut of its primitive log)"]
+           "a process that dies by an exception (ENOSPC from a write/open/rename, KeyboardInterrupt) counts as a crash at "
+           "that point: its finally/except/with handlers run and whatever they do to the directory is judged too",
+           "what Persistent.save serialises (pickle protocol 2 / AOT source) is opaque bytes to the model; a dump function "
+           "that raises has written nothing (true of pickle.dump protocol 2 and jellyToSource: both build the whole output first)",
+           "calls are sequential (no re-entrant save from inside a __getstate__, no concurrent writer of the same path)"]
+TRUSTED = ["harness/lib/fsim.py (in-memory filesystem the real code is redirected to; crash = cut of its primitive log; "
+           "C52.ExcFS: the same with a primitive that raises once instead of killing)",
+           "file contents longer than 256 bytes are compared (tie and oracle) by length + digest (big-endian integer mod 2^61-1), not byte by byte"]
 MANIFEST = {
     "text": "Lean theorems (TwistedProps/C52.lean): for every directory state, target, old/new content, random sibling "
             "name and every cut (k, partial length p) of the primitive trace of FilePath.setContent and of Persistent.save, "
             "the target holds exactly its old binding or exactly the new content, every other name except the temporary is "
-            "untouched, and the uncut run installs the new content; model tied to filepath.py/sob.py by running the real "
-            "functions over fsim at every crash point.",
+            "untouched, and the uncut run installs the new content; the same when the primitive at the cut raises instead of "
+            "the process being killed (failAt), when the dump function raises (target untouched), and after ANY history of "
+            "earlier calls on the same object (setContent_history_*, save_history_*, saveHist_others: a save touches only its "
+            "own final/temporary name); model tied to filepath.py/sob.py by running the real functions over fsim at every "
+            "crash point / failing primitive, for contents up to 140001 bytes, str/bytes paths and extensions, histories "
+            "of up to 3 calls on one object.",
     "note": "trusts Lean kernel, the hand model of setContent/save (tied at every cut), fsim.py, POSIX rename atomicity",
     "technique": "Lean 4 proof over a crash-able filesystem model + differential tie at every crash point",
     "design_ref": "DESIGN.md §7.7 C52",
@@ -32,6 +67,46 @@ MANIFEST = {
 
 D = fsim.ROOT + "/d"
 URLSAFE = set("ABCDEFGHIJKLMNOPQRSTUVWXYZabcdefghijklmnopqrstuvwxyz0123456789-_=")
+SEP = " >> "
+EXC = {"OSError": lambda: OSError(errno.ENOSPC, "No space left on device"), "KeyboardInterrupt": KeyboardInterrupt}
+
+
+# ---------------------------------------------------------------------------------- case helpers
+def norm(c):
+    """the flat (older) form → the ops form"""
+    if "ops" in c:
+        d = dict(c)
+    elif c["fn"] == "setContent":
+        d = {"fn": "setContent", "pre": c["pre"], "base": c["base"], "cut": c["cut"],
+             "ops": [{"rnd": c["rnd"], "ext": c["ext"], "content": c["content"]}]}
+    else:
+        d = {"fn": "save", "pre": c["pre"], "name": c["name"], "cut": c["cut"],
+             "ops": [{"filename": c["filename"], "tag": c["tag"], "style": c["style"], "obj": c["obj"]}]}
+    d.setdefault("mode", "crash")
+    if d["fn"] == "setContent":
+        d.setdefault("pmode", "str")
+    return d
+
+
+@functools.lru_cache(maxsize=64)
+def content_bytes(spec):
+    if spec.startswith("gen:"):
+        _, n, s = spec.split(":")
+        n, s = int(n), int(s)
+        return bytes((i * 7 + s + i // 251) % 256 for i in range(n))
+    return bytes.fromhex(spec)
+
+
+def build_obj(spec):
+    if isinstance(spec, dict) and "$big" in spec:
+        return {"long": "x" * spec["$big"], "n": [1, 2]}
+    if isinstance(spec, dict) and "$bad" in spec:
+        return [1, {"k": "v"}, lambda: None]          # neither pickle nor AOT can serialise a lambda
+    return spec
+
+
+def is_bad(op):
+    return isinstance(op["obj"], dict) and "$bad" in op["obj"]
 
 
 def hx(b):
@@ -44,40 +119,90 @@ def opt(s):
     return "~" if s is None else hx(s)
 
 
+LONG = 256
+
+
+def digest(b):
+    return int.from_bytes(b, "big") % (2 ** 61 - 1)
+
+
+def tok(b):
+    """how a file's content appears in the observable: the bytes themselves up to LONG bytes, `#<length>:<big-endian integer mod 2^61-1>` beyond
+    (the Lean driver prints the same; 140 kB of hex per state made the tie the bottleneck)"""
+    if b is None or isinstance(b, str) or len(b) <= LONG:
+        return b
+    return f"#{len(b)}:{digest(b)}"
+
+
+_RUN = re.compile(rb"(.)\1{31,}", re.S)
+
+
+@functools.lru_cache(maxsize=256)
+def ctoken(b, spec=None):
+    """content token of the setContentH / saveH driver ops"""
+    if spec is not None and spec.startswith("gen:"):
+        return spec
+    if len(b) <= LONG:
+        return hx(b)
+    segs, pos = [], 0
+    for m in _RUN.finditer(b):                      # runs of 32+ equal bytes → `<byte>*<count>`
+        if m.start() > pos:
+            segs.append(b[pos:m.start()].hex())
+        segs.append(f"{b[m.start()]:02x}*{m.end() - m.start()}")
+        pos = m.end()
+    if pos < len(b):
+        segs.append(b[pos:].hex())
+    return "+".join(segs)
+
+
 def show_state(snap):
     if not snap:
         return "."
-    return ",".join(f"{hx(n)}={hx(c)}" for n, c in sorted(snap.items(), key=lambda kv: kv[0].encode()))
+
+    def val(c):
+        t = tok(c)
+        return t if isinstance(t, str) else hx(t)
+    return ",".join(f"{hx(n)}={val(c)}" for n, c in sorted(snap.items(), key=lambda kv: kv[0].encode()))
 
 
-def parse_state(s):
-    s = s.split(" ")[0]
-    if s == ".":
-        return {}
-    out = {}
-    for item in s.split(","):
-        n, c = item.split("=")
-        out[bytes.fromhex(n).decode()] = b"" if c == "-" else bytes.fromhex(c)
-    return out
+def parse_step(s):
+    """one step of the observable → ({name: bytes}, raised-name-or-None)"""
+    parts = s.split(" ")
+    raised = parts[2] if len(parts) >= 3 and parts[1] == "!raised" else None
+    st = {}
+    if parts[0] != ".":
+        for item in parts[0].split(","):
+            n, c = item.split("=")
+            st[bytes.fromhex(n).decode()] = b"" if c == "-" else c if c.startswith("#") else bytes.fromhex(c)
+    return st, raised
 
 
-def rnd_name(c):
-    return base64.urlsafe_b64encode(bytes.fromhex(c["rnd"]))[:16].decode()
+def rnd_name(op):
+    return base64.urlsafe_b64encode(bytes.fromhex(op["rnd"]))[:16].decode()
 
 
-def save_data(c):
-    if c["style"] == "source":
-        return jellyToSource(c["obj"]).encode("utf-8")
-    return pickle.dumps(c["obj"], 2)
+def save_data(op):
+    """the bytes a complete save of this op puts in the final file; None when the object cannot be serialised"""
+    if is_bad(op):
+        return None
+    return _save_data(op["style"], json.dumps(op["obj"], sort_keys=True))
 
 
-def save_names(c):
+@functools.lru_cache(maxsize=256)
+def _save_data(style, obj_json):
+    obj = build_obj(json.loads(obj_json))
+    if style == "source":
+        return jellyToSource(obj).encode("utf-8")
+    return pickle.dumps(obj, 2)
+
+
+def save_names(c, op):
     """(final, temp) as the docstrings/README describe them — written independently of the model."""
-    ext = "tas" if c["style"] == "source" else "tap"
-    if c["filename"]:
-        return c["filename"], c["filename"] + "-2"
-    if c["tag"]:
-        return f"{c['name']}-{c['tag']}.{ext}", f"{c['name']}-{c['tag']}-2.{ext}"
+    ext = "tas" if op["style"] == "source" else "tap"
+    if op["filename"]:
+        return op["filename"], op["filename"] + "-2"
+    if op["tag"]:
+        return f"{c['name']}-{op['tag']}.{ext}", f"{c['name']}-{op['tag']}-2.{ext}"
     return f"{c['name']}.{ext}", f"{c['name']}-2.{ext}"
 
 
@@ -85,113 +210,228 @@ def pre_hex(c):
     return show_state({n: bytes.fromhex(v) for n, v in c["pre"].items()})
 
 
+def _plain(c):
+    """one call, kill-type crash, short content: the original driver ops"""
+    if len(c["ops"]) != 1 or c["mode"] != "crash":
+        return False
+    op = c["ops"][0]
+    if c["fn"] == "setContent":
+        return len(content_bytes(op["content"])) <= LONG
+    return not is_bad(op) and len(save_data(op)) <= LONG
+
+
 def model_line(c):
+    c = norm(c)
     cut = "-" if c["cut"] is None else f"{c['cut'][0]}:{c['cut'][1]}"
     if c["fn"] == "setContent":
-        return " ".join(["setContent", pre_hex(c), hx(c["base"]), hx(rnd_name(c)), hx(c["ext"]), hx(bytes.fromhex(c["content"])), cut])
-    ext = "tas" if c["style"] == "source" else "tap"
-    return " ".join(["save", pre_hex(c), hx(c["name"]), opt(c["filename"]), opt(c["tag"]), hx(ext), hx(save_data(c)), cut])
+        if _plain(c):
+            op = c["ops"][0]
+            return " ".join(["setContent", pre_hex(c), hx(c["base"]), hx(rnd_name(op)), hx(op["ext"] or ""),
+                             hx(content_bytes(op["content"])), cut])
+        ops = ";".join("|".join([hx(rnd_name(op)), hx(op["ext"] or ""), ctoken(content_bytes(op["content"]), op["content"])]) for op in c["ops"])
+        return " ".join(["setContentH", pre_hex(c), hx(c["base"]), ops, cut, c["mode"]])
+
+    def ext(op):
+        return "tas" if op["style"] == "source" else "tap"
+    if _plain(c):
+        op = c["ops"][0]
+        return " ".join(["save", pre_hex(c), hx(c["name"]), opt(op["filename"]), opt(op["tag"]), hx(ext(op)), hx(save_data(op)), cut])
+    ops = ";".join("|".join([opt(op["filename"]), opt(op["tag"]), hx(ext(op)), "!" if is_bad(op) else ctoken(save_data(op))])
+                   for op in c["ops"])
+    return " ".join(["saveH", pre_hex(c), hx(c["name"]), ops, cut, c["mode"]])
+
+
+# ---------------------------------------------------------------------------------- running the real code
+class ExcFS(fsim.FSim):
+    """fsim whose primitive number `fail_at[0]` raises `exc` ONCE (a write first commits `fail_at[1]` bytes)
+    and stays alive: the handlers of the real code run against a working filesystem."""
+    fail_at = None
+    exc = None
+    fired = False
+
+    def _hit(self):
+        return self.fail_at is not None and not self.fired and not self.dead and self.n == self.fail_at[0]
+
+    def _prim(self, kind, *names, length=None):
+        if self._hit():
+            self.fired = True
+            raise self.exc
+        return super()._prim(kind, *names, length=length)
+
+    def _prim_write(self, f, data):
+        if self._hit():
+            self.fired = True
+            if self.fail_at[1]:
+                f._commit(data[:self.fail_at[1]])
+            raise self.exc
+        return super()._prim_write(f, data)
 
 
 def _run(c, cut):
-    """Run the real function over a fresh fsim with the given cut → (fs, raised-name-or-None)."""
-    fs = fsim.FSim()
+    """Run the real code over a fresh filesystem; the last op is cut at `cut` in c["mode"].
+    → (fs, [(snapshot, raised-or-None) per op])"""
+    c = norm(c)
+    fs = ExcFS()
     fs.makedirs(D)
     for n, v in c["pre"].items():
         fs.put(D + "/" + n, bytes.fromhex(v))
-    fs.crash_at = tuple(cut) if cut is not None else None
-    raised = None
-    extra = [(filepath, "randomBytes", lambda n: bytes.fromhex(c["rnd"])[:n])] if c["fn"] == "setContent" else []
+    steps = []
+    extra = []
+    if c["fn"] == "setContent":
+        rnds = iter([bytes.fromhex(op["rnd"]) for op in c["ops"]])
+        extra = [(filepath, "randomBytes", lambda n: next(rnds)[:n])]
     with fsim.patched(fs, filepath, sob, extra=extra):
-        try:
-            if c["fn"] == "setContent":
-                filepath.FilePath(D + "/" + c["base"]).setContent(bytes.fromhex(c["content"]), c["ext"])
-            else:
-                p = sob.Persistent(c["obj"], D + "/" + c["name"])
-                p.setStyle(c["style"])
-                p.save(tag=c["tag"], filename=(D + "/" + c["filename"]) if c["filename"] is not None and c["filename"] != "" else c["filename"])
-        except fsim.Crash:
-            pass
-        except FileExistsError:
-            raised = "FileExistsError"
-    return fs, raised
+        if c["fn"] == "setContent":
+            path = D + "/" + c["base"]
+            target = filepath.FilePath(path.encode("utf-8") if c["pmode"] == "bytes" else path)
+        else:
+            target = sob.Persistent(None, D + "/" + c["name"])
+        for i, op in enumerate(c["ops"]):
+            if i == len(c["ops"]) - 1:
+                fs.n, fs.trace = 0, []
+                if cut is not None:
+                    if c["mode"] == "crash":
+                        fs.crash_at = tuple(cut)
+                    else:
+                        fs.fail_at, fs.exc = tuple(cut), EXC[c["mode"][4:]]()
+            raised = None
+            try:
+                if c["fn"] == "setContent":
+                    ext = op["ext"]
+                    if ext is not None and op.get("emode") == "bytes":
+                        ext = ext.encode("utf-8")
+                    target.setContent(content_bytes(op["content"]), ext)
+                else:
+                    target.original = build_obj(op["obj"])
+                    target.setStyle(op["style"])
+                    fn = op["filename"]
+                    target.save(tag=op["tag"], filename=(D + "/" + fn) if fn else fn)
+            except fsim.Crash:
+                pass
+            except BaseException as e:
+                if e is fs.exc:
+                    raised = type(e).__name__
+                elif isinstance(e, FileExistsError):
+                    raised = "FileExistsError"
+                elif c["fn"] == "save" and is_bad(op) and isinstance(e, Exception):
+                    raised = "DumpError"
+                else:
+                    raise
+            steps.append((fs.snapshot(D), raised))
+    return fs, steps
 
 
 def run_impl(c):
-    fs, raised = _run(c, c["cut"])
-    return show_state({n: v for n, v in fs.snapshot(D).items()}) + (f" !raised {raised}" if raised else "")
+    fs, steps = _run(c, norm(c)["cut"])
+    return SEP.join(show_state(s) + (f" !raised {r}" if r else "") for s, r in steps)
 
 
+# ---------------------------------------------------------------------------------- the property
 def oracle(c, out):
     if out.startswith("!"):
         return {"key": "raises", "detail": out}
-    post = parse_state(out)
-    pre = {n: bytes.fromhex(v) for n, v in c["pre"].items()}
-    raised = "!raised" in out
-    if c["fn"] == "setContent":
-        target, new = c["base"], bytes.fromhex(c["content"])
-        suffix = c["base"] + c["ext"]
+    c = norm(c)
+    steps = [parse_step(s) for s in out.split(SEP)]
+    if len(steps) != len(c["ops"]):
+        return {"key": "raises", "detail": f"{len(steps)} steps for {len(c['ops'])} calls"}
+    state = {n: tok(bytes.fromhex(v)) for n, v in c["pre"].items()}
+    for i, (op, (post, raised)) in enumerate(zip(c["ops"], steps)):
+        last = i == len(c["ops"]) - 1
+        cut = c["cut"] if last else None
+        where = f"call {i + 1}/{len(c['ops'])} cut={cut} mode={c['mode'] if last else 'complete'}"
+        if c["fn"] == "setContent":
+            target, new = c["base"], tok(content_bytes(op["content"]))
+            suffix = c["base"] + (op["ext"] or "")
 
-        def is_temp(n):
-            return len(n) == 16 + len(suffix) and n.endswith(suffix) and set(n[:16]) <= URLSAFE
-    else:
-        target, tmp = save_names(c)
-        new = save_data(c)
+            def is_temp(n, suffix=suffix):
+                return len(n) == 16 + len(suffix) and n.endswith(suffix) and set(n[:16]) <= URLSAFE
+        else:
+            target, tmp = save_names(c, op)
+            data = save_data(op)
+            new = tok(data)
 
-        def is_temp(n):
-            return n == tmp
-    old = pre.get(target)
-    got = post.get(target)
-    if got != old and got != new:
-        return {"key": "target-neither-old-nor-new",
-                "detail": f"cut={c['cut']} target {target!r} holds {got!r}; old={old!r} new={new!r}"}
-    if c["cut"] is None and not raised and got != new:
-        return {"key": "complete-run-not-new", "detail": f"target {target!r} holds {got!r} after an uncut run; new={new!r}"}
-    for n, v in pre.items():
-        if n != target and not is_temp(n) and post.get(n) != v:
-            return {"key": "bystander-changed", "detail": f"cut={c['cut']} file {n!r} was {v!r}, now {post.get(n)!r}"}
-    for n in post:
-        if n != target and n not in pre and not is_temp(n):
-            return {"key": "non-temporary-left-behind", "detail": f"cut={c['cut']} new file {n!r} is not a temporary name"}
-    if c["fn"] == "save" and new is not None and got == new and c["style"] == "pickle" and pickle.loads(got) != c["obj"]:
-        return {"key": "saved-object-differs", "detail": "pickle round trip"}
+            def is_temp(n, tmp=tmp):
+                return n == tmp
+        old = state.get(target)
+        got = post.get(target)
+        if got != old and (new is None or got != new):
+            return {"key": "target-neither-old-nor-new",
+                    "detail": f"{where} target {target!r} holds {_short(got)}; old={_short(old)} new={_short(new)}"}
+        if cut is None and not raised and got != new:
+            return {"key": "complete-run-not-new",
+                    "detail": f"{where} target {target!r} holds {_short(got)} after an uncut run; new={_short(new)}"}
+        for n, v in state.items():
+            if n != target and not is_temp(n) and post.get(n) != v:
+                return {"key": "bystander-changed", "detail": f"{where} file {n!r} was {_short(v)}, now {_short(post.get(n))}"}
+        for n in post:
+            if n != target and n not in state and not is_temp(n):
+                return {"key": "non-temporary-left-behind", "detail": f"{where} new file {n!r} is not a temporary name"}
+        if (c["fn"] == "save" and new is not None and got == new and op["style"] == "pickle" and got != old
+                and pickle.loads(data) != build_obj(op["obj"])):
+            return {"key": "saved-object-differs", "detail": "pickle round trip"}
+        state = post
     return None
 
 
+def _short(b):
+    if b is None or isinstance(b, str) or len(b) <= 48:
+        return repr(b)
+    return f"<{len(b)} bytes {b[:12]!r}…{b[-6:]!r}>"
+
+
+def _size_class(n):
+    return "rejected" if n is None else "empty" if n == 0 else "small" if n <= 64 else "big"
+
+
 def tag(c, out):
-    post_raised = "raised" if "!raised" in out else "ok"
+    c = norm(c)
+    op = c["ops"][-1]
+    last = out.split(SEP)[-1]
+    post_raised = "raised" if "!raised" in last else "ok"
     pre = c["pre"]
     if c["fn"] == "setContent":
-        target, n = c["base"], len(c["content"]) // 2
-        tmp_pre = (rnd_name(c) + c["base"] + c["ext"]) in pre
+        target, n = c["base"], len(content_bytes(op["content"]))
+        tmp_pre = (rnd_name(op) + c["base"] + (op["ext"] or "")) in pre
+        kinds = c["pmode"][0] + ("n" if op["ext"] is None else op.get("emode", "str")[0])
     else:
-        target, tmp = save_names(c)
-        n = len(save_data(c))
+        target, tmp = save_names(c, op)
+        d = save_data(op)
+        n = None if d is None else len(d)
         tmp_pre = tmp in pre
+        kinds = op["style"][0]
     cut = c["cut"]
     if cut is None:
         where = "uncut"
     else:
         k, p = cut
         where = f"k{k}" + ("+partial" if p else "")
-    return f"{c['fn']}:{where}:old={'y' if target in pre else 'n'}:empty={'y' if n == 0 else 'n'}:tmp={'y' if tmp_pre else 'n'}:{post_raised}"
+    hist = min(len(c["ops"]) - 1, 2)
+    old = "y" if (target in pre or hist) else "n"
+    return (f"{c['fn']}:{c['mode']}:{where}:old={old}:size={_size_class(n)}:tmp={'y' if tmp_pre else 'n'}"
+            f":hist={hist}:{kinds}:{post_raised}")
 
 
+# ---------------------------------------------------------------------------------- generation
 def cuts_of(c):
-    """every cut of the trace the real code performs on this scenario (found by an uncut run)"""
-    fs, raised = _run(c, None)
+    """every cut of the trace the real code performs in the LAST call of this scenario (found by an uncut run)"""
+    d = dict(norm(c))
+    d["mode"] = "crash"
+    fs, steps = _run(d, None)
+    exc = norm(c)["mode"] != "crash"
     out = [None]
     for k, prim in enumerate(fs.trace):
         out.append([k, 0])
         if prim[0] == "write":
             L = prim[-1]
-            ps = range(1, L) if L <= 24 else sorted({1, 2, L // 2, L - 2, L - 1})
+            ps = range(1, L) if L <= 24 else sorted({1, 2, L // 2, L - 2, L - 1}) if L <= 4000 else [1, L // 2, L - 1]
             out += [[k, p] for p in ps]
-    out.append([len(fs.trace), 0])
+    if not exc:
+        out.append([len(fs.trace), 0])
     return out
 
 
 def with_cuts(c):
+    c = norm(c)
     for cut in cuts_of(c):
         d = dict(c)
         d["cut"] = cut
@@ -199,8 +439,15 @@ def with_cuts(c):
 
 
 NAMES = ["t.txt", "a", "data.bin", "x.new", "app", "app-2", "cfg.tap"]
+UNAMES = ["é.txt", "файл", "a b", "データ.bin"]
 EXTS = [".new", ".new", ".tmp", "", ".rpl"]
 OBJS = [{"a": 1}, [1, 2, 3], "text", {"k": [1, {"z": None}], "s": "é"}, 0, [], {"long": "x" * 40}]
+# io.DEFAULT_BUFFER_SIZE / st_blksize and FilePath._chunkSize (65536) ± 1, and beyond two chunks
+BIG = [4095, 4096, 4097, 8191, 8192, 8193] + 3 * [65534, 65535, 65536, 65537] + 2 * [70000, 131072, 131073, 140001]
+# Persistent name / filename / tag fragments: the literals _getFilename glues together, and look-alikes
+PNAMES = ["app", "a", "app-x", "cfg", "app-2", "a.tap", "é", "x-2.tap"]
+FILENAMES = ["out.bin", "app.tap", "", "state-2", "x-2", "-2", "app-2.tap", "a.tas", "out.tap-2", "app.tas", "2", "app-2-2"]
+TAGS = ["x", "2", "", "-2", "x-2", "2.tap", "shutdown"]
 
 
 def _content(rng):
@@ -208,27 +455,56 @@ def _content(rng):
     return bytes(rng.randrange(256) for _ in range(n)).hex()
 
 
-def _scenario(rng):
+def _sc_op(rng, big=False, odd=False):
+    op = {"rnd": bytes(rng.randrange(256) for _ in range(16)).hex(), "ext": rng.choice(EXTS),
+          "content": f"gen:{rng.choice(BIG)}:{rng.randrange(256)}" if big else _content(rng)}
+    if odd:
+        op["ext"] = rng.choice(EXTS + [None, ".é"])
+        op["emode"] = rng.choice(["str", "bytes"])
+    return op
+
+
+def _save_op(rng, big=False, bad=False):
+    obj = {"$big": rng.choice(BIG)} if big else {"$bad": 1} if bad else rng.choice(OBJS)
+    return {"filename": rng.choice([None, None, None, None] + FILENAMES) if rng.random() < 0.6 else None,
+            "tag": rng.choice([None, None] + TAGS) if rng.random() < 0.6 else None,
+            "style": rng.choice(["pickle", "pickle", "source"]), "obj": obj}
+
+
+def _mode(rng):
+    return rng.choice(["crash", "crash", "crash", "crash", "exc:OSError", "exc:OSError", "exc:KeyboardInterrupt"])
+
+
+def _scenario(rng, big=False):
     pre = {}
     for n in rng.sample(NAMES, rng.choice([0, 1, 2, 3])):
         pre[n] = _content(rng)
+    nops = 1 if big else rng.choice([1, 1, 1, 2, 2, 3])
     if rng.random() < 0.5:
-        base = rng.choice(NAMES)
-        c = {"fn": "setContent", "pre": pre, "base": base, "ext": rng.choice(EXTS),
-             "rnd": bytes(rng.randrange(256) for _ in range(16)).hex(), "content": _content(rng), "cut": None}
-        if rng.random() < 0.6:
+        odd = rng.random() < 0.25
+        base = rng.choice(UNAMES if odd and rng.random() < 0.5 else NAMES)
+        c = {"fn": "setContent", "pre": pre, "base": base, "pmode": rng.choice(["str", "bytes"]) if odd else "str",
+             "ops": [_sc_op(rng, odd=odd) for _ in range(nops - 1)] + [_sc_op(rng, big=big, odd=odd)],
+             "cut": None, "mode": _mode(rng)}
+        if rng.random() < (0.8 if big else 0.6):
             pre[base] = _content(rng)
-        if rng.random() < 0.1:                      # the "unpredictable" sibling already exists
-            pre[rnd_name(c) + base + c["ext"]] = _content(rng)
+        if rng.random() < 0.12:                     # the "unpredictable" sibling already exists
+            op = rng.choice(c["ops"])
+            pre[rnd_name(op) + base + (op["ext"] or "")] = _content(rng)
         return c
-    c = {"fn": "save", "pre": pre, "name": rng.choice(["app", "a", "app-x", "cfg"]),
-         "filename": rng.choice([None, None, None, "out.bin", "app.tap", ""]), "tag": rng.choice([None, None, "x", "2", ""]),
-         "style": rng.choice(["pickle", "pickle", "source"]), "obj": rng.choice(OBJS), "cut": None}
-    final, tmp = save_names(c)
-    if rng.random() < 0.6:
-        pre[final] = _content(rng)
-    if rng.random() < 0.3:                          # stale temporary from an earlier crash
-        pre[tmp] = _content(rng)
+    c = {"fn": "save", "pre": pre, "name": rng.choice(PNAMES),
+         "ops": [_save_op(rng, bad=rng.random() < 0.1) for _ in range(nops - 1)] + [_save_op(rng, big=big, bad=not big and rng.random() < 0.1)],
+         "cut": None, "mode": _mode(rng)}
+    for op in c["ops"]:
+        final, tmp = save_names(c, op)
+        if rng.random() < 0.6 / nops:
+            pre[final] = _content(rng)
+        if rng.random() < 0.3 / nops:               # stale temporary from an earlier crash
+            pre[tmp] = _content(rng)
+    if rng.random() < 0.3:                          # bystanders that look like another save's files
+        ext = rng.choice(["tap", "tas"])
+        for n in rng.sample([f"{c['name']}.{ext}", f"{c['name']}-2.{ext}", f"{c['name']}-shutdown.{ext}", f"{c['name']}-2-2.{ext}"], 2):
+            pre.setdefault(n, _content(rng))
     return c
 
 
@@ -244,6 +520,38 @@ def corpus():
         {"fn": "save", "pre": {"app-x.tas": "6f6c64"}, "name": "app", "filename": None, "tag": "x", "style": "source", "obj": [1, 2], "cut": None},
         {"fn": "save", "pre": {"out.bin": "6f6c64", "other": "00"}, "name": "app", "filename": "out.bin", "tag": "x", "style": "pickle",
          "obj": "text", "cut": None},
+        # --- white-box audit (harness/mutants/C52): the witnesses of the mutants that used to survive
+        # m02/m13: content around FilePath._chunkSize over an existing file
+        {"fn": "setContent", "pre": {"t.txt": "6f6c64"}, "base": "t.txt", "pmode": "str", "cut": None, "mode": "crash",
+         "ops": [{"rnd": "01" * 16, "ext": ".new", "content": "gen:65536:3"}]},
+        {"fn": "setContent", "pre": {"t.txt": "6f6c64"}, "base": "t.txt", "pmode": "str", "cut": None, "mode": "crash",
+         "ops": [{"rnd": "02" * 16, "ext": ".new", "content": "gen:70000:5"}]},
+        # m14/m06: the write raises ENOSPC / KeyboardInterrupt; the dump function rejects the object
+        {"fn": "setContent", "pre": {"t.txt": "6f6c64"}, "base": "t.txt", "pmode": "str", "cut": None, "mode": "exc:OSError",
+         "ops": [{"rnd": "03" * 16, "ext": ".new", "content": "6e6577206e6577"}]},
+        {"fn": "setContent", "pre": {}, "base": "t.txt", "pmode": "bytes", "cut": None, "mode": "exc:KeyboardInterrupt",
+         "ops": [{"rnd": "04" * 16, "ext": ".new", "emode": "bytes", "content": "6e6577206e6577"}]},
+        {"fn": "save", "pre": {"app.tap": "6f6c64"}, "name": "app", "cut": None, "mode": "exc:OSError",
+         "ops": [{"filename": None, "tag": None, "style": "pickle", "obj": {"a": 1}}]},
+        {"fn": "save", "pre": {"app.tap": "6f6c64"}, "name": "app", "cut": None, "mode": "crash",
+         "ops": [{"filename": None, "tag": None, "style": "pickle", "obj": {"$bad": 1}}]},
+        {"fn": "save", "pre": {"state": "6f6c64"}, "name": "app", "cut": None, "mode": "exc:KeyboardInterrupt",
+         "ops": [{"filename": "state", "tag": None, "style": "source", "obj": {"$bad": 1}}]},
+        # m07: explicit file name that already ends in "-2"
+        {"fn": "save", "pre": {"state-2": "6f6c64"}, "name": "app", "cut": None, "mode": "crash",
+         "ops": [{"filename": "state-2", "tag": None, "style": "pickle", "obj": {"a": 1}}]},
+        # m11: one Persistent saved twice under different names
+        {"fn": "save", "pre": {}, "name": "app", "cut": None, "mode": "crash",
+         "ops": [{"filename": None, "tag": None, "style": "pickle", "obj": {"a": 1}},
+                 {"filename": None, "tag": "shutdown", "style": "pickle", "obj": {"a": 2}}]},
+        {"fn": "save", "pre": {"app-2.tap": "6f6c64"}, "name": "app", "cut": None, "mode": "crash",
+         "ops": [{"filename": None, "tag": "2", "style": "pickle", "obj": [1]},
+                 {"filename": "out.bin", "tag": None, "style": "source", "obj": [2]},
+                 {"filename": None, "tag": "2", "style": "pickle", "obj": [3]}]},
+        # one FilePath object used three times, the second call refused (its sibling exists)
+        {"fn": "setContent", "pre": {"t.txt": "6f6c64", "BBBBBBBBBBBBBBBBt.txt": "09"}, "base": "t.txt", "pmode": "str", "cut": None,
+         "mode": "crash", "ops": [{"rnd": "00" * 16, "ext": ".new", "content": "01"}, {"rnd": "041041041041041041041041" + "00" * 4, "ext": "", "content": "02"},
+                                  {"rnd": "05" * 16, "ext": None, "content": "0304"}]},
     ]
     out = []
     for c in base:
@@ -253,24 +561,34 @@ def corpus():
 
 def generate(rng, tier):
     n = 250 if tier == "quick" else 6000
-    for _ in range(n):
-        yield from with_cuts(_scenario(rng))
+    nbig = 25 if tier == "quick" else 100
+    every = n // nbig
+    for i in range(n):
+        yield from with_cuts(_scenario(rng, big=(i % every == every // 2)))
 
 
 def search(rng, tier, disagreeing):
     for c in disagreeing[:20]:
-        c = dict(c)
+        c = dict(norm(c))
         c["cut"] = None
         yield from with_cuts(c)
     yield from generate(rng, "quick")
 
 
 def shrink(c):
+    c = norm(c)
     for n in list(c["pre"]):
         d = dict(c)
         d["pre"] = {k: v for k, v in c["pre"].items() if k != n}
         yield d
-    if c["fn"] == "setContent" and len(c["content"]) > 2:
-        d = dict(c)
-        d["content"] = c["content"][: len(c["content"]) // 4 * 2]
-        yield d
+    if len(c["ops"]) > 1:
+        for i in range(len(c["ops"]) - 1):
+            d = dict(c)
+            d["ops"] = c["ops"][:i] + c["ops"][i + 1:]
+            yield d
+    if c["fn"] == "setContent":
+        op = c["ops"][-1]
+        if not op["content"].startswith("gen:") and len(op["content"]) > 2:
+            d = dict(c)
+            d["ops"] = c["ops"][:-1] + [dict(op, content=op["content"][: len(op["content"]) // 4 * 2])]
+            yield d
